@@ -427,7 +427,8 @@ def kani_group(pkg, obs, flags, stage_dir, scratch, tier):
         cmd += ["--exact"]
     total_to = 600 + timeout_each * (1 + (len(obs) + jobs - 1) // jobs)
     log(f"[kani] {pkg}: {len(obs)} harnesses, -j {jobs}")
-    rc, out, err, secs, to = run(cmd, cwd=stage_dir, timeout=total_to)
+    # address-space cap per process (inherited by every cbmc): one exploding harness must not take the machine down
+    rc, out, err, secs, to = run(cmd, cwd=stage_dir, timeout=total_to, mem_kb=int(os.environ.get("VERIF_KANI_MEM_KB", str(40 * 1024 * 1024))))
     rdir = os.path.join(tdir, "result_output_dir")
     build_failed = ("error: could not compile" in err) or ("error[E" in err and "Checking harness" not in out)
     if build_failed:
